@@ -13,6 +13,7 @@ specs/CliJudge.tla   TLC: judges recorded (shape, args, outcome) lines (non-UTF-
 import json
 import os
 import random
+import re
 
 from vlib import core
 from checks import cli_shapes as SH
@@ -159,6 +160,62 @@ def judge_with_tlc(chk, records, tag):
     return bad
 
 
+ARMS = ["ArmFlag", "ArmOptionNoValue", "ArmOptionValue", "ArmOptionBadValue", "ArmHelp", "TailNoMatch", "TailUnit",
+        "TailEnter", "PosNone", "PosAssign", "PosBadValue", "FinishMissing", "FinishOk", "FinishReturn"]
+
+
+def model_selfcheck(chk, tier):
+    """The fast computation of the admissible set (only the policies a line touches) equals the
+    definition (all policies) on every list of a small configuration."""
+    maxlen = 2 if tier == "quick" else 3
+    cfg = os.path.join(chk.work, "CliGen_selfcheck.cfg")
+    with open(cfg, "w") as f:
+        f.write('CONSTANTS\n  Mode = "lists"\n  MaxLen = %d\n  ShapeSel = {%s}\n  Tier = "%s"\n  MaxPerm = 4\n' % (
+            maxlen, ", ".join(map(str, range(1, NS + 1))), tier))
+        f.write("INIT Init\nNEXT Next\nINVARIANTS FastIsFull Progress\n")
+    res = core.run_tlc("CliGen.tla", cfg, workers=8, timeout=1800, xmx="6g")
+    core.tlc_must_pass(res, "CliGen self-check (FastIsFull)")
+    chk.add_tlc(res)
+    chk.extra["fast_admissible_equals_definition_on_lists"] = sum(
+        sum(len(SH.alphabet(s)) ** k for k in range(maxlen + 1)) for s in SH.SHAPES)
+
+
+def check_helps(chk, bindir):
+    """The help text of every struct level names every option literal, positional and command of that
+    struct (that is what makes it the relevant help); levels have pairwise different texts."""
+    p = core.run_cmd([os.path.join(bindir, "clishapes"), "helps"], timeout=120)
+    got = {}
+    for l in p.stdout.splitlines():
+        r = json.loads(l)
+        got[(r["s"], tuple(r["lvl"]))] = r["help"]
+    n = 0
+    for k, shape in enumerate(SH.SHAPES):
+        texts = []
+        for lvl, st in SH.walk(shape):
+            h = got.get((k + 1, lvl))
+            if h is None:
+                raise core.ToolError("driver has no help text for shape %d level %s" % (k + 1, lvl))
+            texts.append(h)
+            want = []
+            for f in st["fields"]:
+                want += SH.lits(f) if f["kind"] != "positional" else ["[%s]" % f["name"].upper()]
+            if st["sub"]:
+                want += [SH.pascal_to_kebab(t) for t, _ in st["sub"]["tags"]]
+            n += 1
+            chk.evaluations += 1
+            missing = [w for w in want if w not in h]
+            if missing or not h:
+                chk.violate({"op": "help_printer", "got": "missing-literal"},
+                            "help text of %s (shape %s) does not mention %s" % (st["name"], shape["name"], missing),
+                            {"mode": "help", "s": k + 1, "lvl": list(lvl), "help": h, "missing": missing})
+            else:
+                chk.traces += 1
+        if len(set(texts)) != len(texts):
+            raise core.ToolError("two levels of shape %s have the same help text: levels cannot be told apart" % shape["name"])
+    chk.sample({"help_of": SH.SHAPES[10]["name"], "text": got[(11, ())]})
+    return n
+
+
 # --------------------------------------------------------------------------------------------
 # judge inputs: what TLC does not enumerate
 # --------------------------------------------------------------------------------------------
@@ -284,7 +341,7 @@ def check_cause(chk, bindir, tier):
 # --------------------------------------------------------------------------------------------
 def violate(chk, mode, s, a, out, adm, raw, extra=None):
     shape = SH.SHAPES[s - 1]["name"]
-    sig = {"op": "arg_parse", "shape": shape, "got": out_class(out), "want": adm_class(adm)}
+    sig = {"op": "arg_parse", "got": out_class(out), "want": adm_class(adm)}
     if extra:
         sig.update(extra)
     chk.violate(sig, "%s::arg_parse(%s) gave %s, the grammar admits %s" % (shape, show_args(a), show_out(out), show_adm(adm)),
@@ -297,15 +354,15 @@ def side_checks(chk, s, a, raw):
         return
     shape = SH.SHAPES[s - 1]["name"]
     if raw["help_len"] == 0:
-        chk.violate({"op": "arg_parse", "shape": shape, "got": "empty-help"},
+        chk.violate({"op": "arg_parse", "got": "empty-help"},
                     "%s::arg_parse(%s) returned an error without help text" % (shape, show_args(a)),
                     {"mode": "side", "s": s, "a": a, "actual": raw})
     if raw["lvl"] is None:
-        chk.violate({"op": "arg_parse", "shape": shape, "got": "foreign-help"},
+        chk.violate({"op": "arg_parse", "got": "foreign-help"},
                     "%s::arg_parse(%s): the error's help text is not the help printer output of any struct of the shape" % (shape, show_args(a)),
                     {"mode": "side", "s": s, "a": a, "actual": raw})
     if not raw["display_ok"] or raw["cause_len"] > 128:
-        chk.violate({"op": "arg_parse", "shape": shape, "got": "bad-display"},
+        chk.violate({"op": "arg_parse", "got": "bad-display"},
                     "%s::arg_parse(%s): Display of the error does not show help and cause / cause longer than its buffer (cause_len %d)" % (shape, show_args(a), raw["cause_len"]),
                     {"mode": "side", "s": s, "a": a, "actual": raw})
 
@@ -320,14 +377,23 @@ def run(tier):
     shapes = list(range(1, NS + 1))
     maxlen = 3 if tier == "quick" else 4
 
+    model_selfcheck(chk, tier)
+    n_help = check_helps(chk, bindir)
+    core.log("FastIsFull self-check, %d help texts (%.0fs)" % (n_help, __import__("time").time() - chk.t0))
     # ---- TLC: transcription vs definition on all lists / all renderings; vectors
     vec_lists = []
+    bounds = {}
     if tier == "quick":
         vec_lists = gen(chk, "lists", shapes, maxlen, tier, "lists")
+        bounds = {SH.SHAPES[s - 1]["name"]: maxlen for s in shapes}
     else:
         for s in shapes:   # one run per shape keeps TLC's output in memory bounded
-            vec_lists += gen(chk, "lists", [s], maxlen, tier, "lists%d" % s)
+            ml = maxlen + 1 if len(SH.alphabet(SH.SHAPES[s - 1])) <= 12 else maxlen
+            bounds[SH.SHAPES[s - 1]["name"]] = ml
+            vec_lists += gen(chk, "lists", [s], ml, tier, "lists%d" % s)
+    core.log("lists: %d vectors (%.0fs)" % (len(vec_lists), __import__("time").time() - chk.t0))
     vec_render = gen(chk, "render", shapes, maxlen, tier, "render")
+    core.log("render: %d vectors (%.0fs)" % (len(vec_render), __import__("time").time() - chk.t0))
     vecs = vec_lists + vec_render
     n_lists = len(vec_lists)
 
@@ -335,6 +401,7 @@ def run(tier):
     lines = run_driver(chk, bindir, vecs, "gen")
     nontrivial = set()
     drift = 0
+    arm_runs = {a: 0 for a in ARMS}
     confirmed_model_bad = 0
     per_shape = {}
     for i, (v, raw) in enumerate(zip(vecs, lines)):
@@ -354,7 +421,10 @@ def run(tier):
         same = (out["r"] == "ok" and tr["ok"] and tr["v"] == out["v"]) or \
                (out["r"] == "err" and not tr["ok"] and tr["lvl"] == out["lvl"] and
                 (tr["kind"] == out["kind"] or out["kind"] in ("Overflow", "Other")))
-        if not same:
+        if same:
+            for a in v["arms"]:
+                arm_runs[a] += 1
+        else:
             drift += 1
             if "first_drift" not in chk.extra:
                 chk.extra["first_drift"] = {"shape": SH.SHAPES[v["s"] - 1]["name"], "args": show_args(v["a"]),
@@ -372,7 +442,13 @@ def run(tier):
                                             "first": {"s": model_bad[0]["s"], "args": show_args(model_bad[0]["a"]),
                                                       "trok": model_bad[0]["trok"], "rt": model_bad[0]["rt"]}}
     chk.extra["transcription_drift"] = drift
+    chk.extra["matcher_arm_coverage"] = arm_runs      # real runs that agree with a model run through the arm
+    silent = [a for a in ARMS if arm_runs[a] == 0 and not chk.violations]
+    if silent:
+        raise core.ToolError("arms of the transcribed matcher never exercised by a conforming real run: %s" % silent)
+    chk.extra["list_length_bound"] = bounds
 
+    core.log("compared %d real outcomes (%.0fs)" % (len(vecs), __import__("time").time() - chk.t0))
     # ---- the cause buffer
     n_cause, nt_cause = check_cause(chk, bindir, tier)
     chk.extra["model_conformance"] = drift == 0 and chk.extra["cause_buffer_drift"] == 0
@@ -384,6 +460,7 @@ def run(tier):
     for v, raw in zip(ji, jl):
         side_checks(chk, v["s"], v["a"], raw)
         recs.append({"s": v["s"], "a": v["a"], "out": normalise(raw)})
+    core.log("judging %d recorded runs (%.0fs)" % (len(recs), __import__("time").time() - chk.t0))
     bad = judge_with_tlc(chk, recs, "j")
     chk.evaluations += len(recs)
     chk.traces += len(recs) - len(bad)
@@ -395,7 +472,7 @@ def run(tier):
 
     chk.nontrivial = len(nontrivial) + len(jclasses) + nt_cause
     chk.exhaustive = True
-    chk.rule = ("TLC (CliGen.tla) runs the transcribed matcher on every argument list of length <= %d over each of the %d shapes' "
+    chk.rule = ("TLC (CliGen.tla) runs the transcribed matcher on every argument list of length <= %s over each of the %d shapes' "
                 "token alphabets (%d lists) and on every rendered token assignment x order (%d renderings) and prints the "
                 "definition's admissible outcome set; every list is run through the real derived parser under catch_unwind and "
                 "the outcome (value field by field / error kind + which struct's help text) must be in the set. "
@@ -403,7 +480,8 @@ def run(tier):
                 "%d cause-buffer piece sequences (CliCause.tla) x 2 constructors. non-trivial = distinct (shape, admissible class, "
                 "observed class, length) with a non-empty list + distinct (shape, input class, observed class) of judged lists + "
                 "cause sequences longer than 100 bytes"
-                % (maxlen, NS, n_lists, len(vec_render), len(recs), 300 if tier == "quick" else 131071, n_cause))
+                % ("%d" % maxlen if tier == "quick" else "%d (%d for alphabets of <= 12 tokens)" % (maxlen, maxlen + 1),
+                   NS, n_lists, len(vec_render), len(recs), 300 if tier == "quick" else 131071, n_cause))
     chk.assumptions = [
         "arguments contain no NUL byte (they are NUL-terminated strings handed over by the start-up code)",
         "undocumented points are policies, every policy admitted: a single-valued option given twice (first / last / error), "
@@ -421,6 +499,36 @@ def run(tier):
     chk.extra["tlc_judged_records"] = len(recs)
     chk.extra["cause_buffer_vectors"] = n_cause
     return chk.finish()
+
+
+def selftest():
+    """(1) corrupted records must be rejected by the judge; (2) a stored negative patch must be detected."""
+    chk = core.Check(PID, "quick", "model_checking")
+    bindir = core.cargo_build(bins=["clishapes"])
+
+    def tok(x):
+        return list(x.encode())
+    base = [{"s": 5, "a": [tok("--req-field"), tok("7"), tok("--rep"), tok("1"), tok("--rep"), tok("2")]},
+            {"s": 8, "a": [tok("cmd-two"), tok("-h")]},
+            {"s": 1, "a": []}]
+    raws = run_driver(chk, bindir, base, "selftest")
+    good = [{"s": v["s"], "a": v["a"], "out": normalise(r)} for v, r in zip(base, raws)]
+    corrupt = [json.loads(json.dumps(g)) for g in good]
+    corrupt[0]["out"]["v"]["f"][2] = [2]                 # repeated field lost its first value
+    corrupt[1]["out"]["lvl"] = []                        # help of the wrong struct level
+    corrupt[2]["out"] = {"r": "ok", "v": {"f": [[0]], "sc": []}}   # required option silently defaulted
+    corrupt.append({"s": 1, "a": [], "out": {"r": "panic"}})
+    bad = judge_with_tlc(chk, good + corrupt, "selftest")
+    ok = sorted(bad) == list(range(len(good), len(good) + len(corrupt)))
+    print("selftest judge: accepted %d real records, rejected corrupted %s -> %s" % (len(good), sorted(bad), "ok" if ok else "FAILED"))
+    if not ok:
+        return 2
+    patch = os.path.join(core.VERIF, "seeded", "C20-short_alias_dropped", "patch.diff")
+    p = core.run_cmd([os.path.join(core.VERIF, "bin", "mutant-test"), patch, PID], timeout=1800, check=False)
+    det = p.returncode == 0
+    print("selftest negative patch short_alias_dropped: %s" % ("detected" if det else "NOT DETECTED"))
+    print("\n".join(p.stdout.splitlines()[-6:]))
+    return 0 if det else 2
 
 
 def replay(path):
